@@ -31,8 +31,11 @@ func hangWatchdog(lat []time.Duration) time.Duration {
 func genRequest(r *rand.Rand, ks *keyset, validShare int) *request {
 	switch k := r.Intn(100); {
 	case k < validShare:
-		if r.Intn(6) == 0 {
+		switch r.Intn(8) {
+		case 0:
 			return extraFieldRequest(r, ks)
+		case 1:
+			return paddedRequest(r, ks)
 		}
 		return validRequest(r, ks)
 	case k < validShare+2:
